@@ -763,38 +763,26 @@ def timing_source_rule(ctx: Ctx) -> None:
     ctx.expect("R-TABLE", (TS, ""), "split timing starts with SSC version 0.7", thr == 0.7, str(thr), f"threshold is {thr}")
     f = p.func(f"{TS}:timing_source")
     sf, ch = f.param_names()
-    from ..decide import decisions, judge_table, canon_atom
-    from ..pat import match as _m2
-
-    def opaque(e):
-        t = ast.unparse(e)
-        return "CHART_TIMING_PROPERTIES" in t or "version" in t
-
-    decs = decisions(ctx, f, opaque=opaque)
-    keys = set()
-    for d in decs:
-        keys.update(d.assign)
+    from .tables import function_decs, judge, sums_of, atoms_seen, terminal_and_exit
+    sums = sums_of(ctx, f)
+    decs = function_decs(sums, terminal_and_exit)
+    keys = atoms_seen(decs)
     a_sim, a_chart = f"isinstance({sf}, SSCSimfile)", f"isinstance({ch}, SSCChart)"
     vers = [k for k in keys if "version" in k]
-    anys = [k for k in keys if "CHART_TIMING_PROPERTIES" in k]
-    okv = len(vers) == 1 and vers[0] in (f"SSC_VERSION_SPLIT_TIMING <= float({sf}.version or '0')",)
+    loops = {(ast.unparse(e.target), ast.unparse(e.value)) for s_ in sums for e in s_.effects if e.kind == "for"}
+    okl = len(loops) == 1 and list(loops)[0][1] == "CHART_TIMING_PROPERTIES"
+    lv = list(loops)[0][0] if loops else "?"
+    hits = [k for k in keys if lv in {n.id for n in ast.walk(ast.parse(k, mode="eval")) if isinstance(n, ast.Name)}]
+    okv = len(vers) == 1 and vers[0] in (f"{thr!r} <= float({sf}.version or '0')",)
     ctx.expect("R-TABLE", f, "the version test is float(version or '0') >= SSC_VERSION_SPLIT_TIMING", okv, str(vers),
                f"version condition(s): {vers} - the documented rule is 'version 0.7 or later' (absent/empty version counts as 0)", node=f.node) if vers else None
-    oka = False
-    if len(anys) == 1:
-        mm = _m2("any(($p.__get__($c) for $p in CHART_TIMING_PROPERTIES))", ast.parse(anys[0], mode="eval").body)
-        oka = mm is not None and ast.unparse(mm["c"]) == ch
-    ctx.expect("R-TABLE", f, "the chart counts as timed when any of its timing properties is non-empty (truthy)", oka, str(anys),
-               f"chart timing condition(s): {anys}: must be any(<property value of the chart> for the eleven chart timing properties)", node=f.node) if anys else None
-    if len(vers) != 1 or len(anys) != 1:
-        raise AnalysisError(f"{f.fq}: the version / chart-timing conditions are not recognised (found {vers} / {anys})")
-
-    def outcome(d):
-        k, v = d.terminal()
-        return ast.unparse(v) if (k == "return" and v is not None) else k
-
-    judge_table(ctx, "R-TABLE", f, "the chart is the source exactly under: SSC simfile and SSC chart and version >= 0.7 and any non-empty chart timing property; otherwise the simfile",
-                decs, [a_sim, a_chart, vers[0], anys[0]], lambda a: ch if all(a.values()) else sf, outcome)
+    oka = okl and hits == [f"{lv}.__get__({ch})"]
+    ctx.expect("R-TABLE", f, "the chart counts as timed when any of its timing properties is non-empty (truthy)", oka, str(hits),
+               f"chart timing condition(s): {hits} over {sorted(loops)}: must be 'some property value of the chart is truthy' over the eleven chart timing properties", node=f.node) if hits else None
+    if len(vers) != 1 or len(hits) != 1:
+        raise AnalysisError(f"{f.fq}: the version / chart-timing conditions are not recognised (found {vers} / {hits})")
+    judge(ctx, "R-TABLE", f, "the chart is the source exactly under: SSC simfile and SSC chart and version >= 0.7 and any non-empty chart timing property; otherwise the simfile",
+          decs, [a_sim, a_chart, vers[0], hits[0]], lambda a: f"return {ch} [leaving the loop at this element]" if all(a.values()) else f"return {sf}")
 
 
 def single_source(ctx: Ctx) -> None:
@@ -819,50 +807,64 @@ def single_source(ctx: Ctx) -> None:
 
 
 def displaybpm_rule(ctx: Ctx) -> None:
+    """C15.5: the five outcomes of displaybpm() as a decision table over closed-form guards (path effects)."""
     p = ctx.p
     f = p.func("simfile.timing.displaybpm:displaybpm")
-    loc = locals_of(f)
-    x = [n for n, bs in loc.b.items() for b in bs if b.kind == "assign" and isinstance(b.value, ast.Call) and callee_name(ctx, f, b.value).endswith("timing_source")]
-    require(len(x) == 1, "displaybpm: timing_source local not found")
-    x = x[0]
-    dv = [n for n, bs in loc.b.items() for b in bs if b.kind == "assign" and ast.unparse(b.value) == f"{x}['DISPLAYBPM']"]
-    require(len(dv) == 1, "displaybpm: DISPLAYBPM value local not found")
-    dv = dv[0]
-    rets = [r for r in body_walk(f.node) if isinstance(r, ast.Return)]
-    table = {}
-    for r in rets:
-        fs = sorted((ast.unparse(a), pol) for a, pol in facts(ctx, f, r))
-        table[ast.unparse(r.value)] = fs
-    pre = [(f"'DISPLAYBPM' in {x}", True), ("ignore_specified", False)]
-    def has(fs, extra):
-        return sorted(fs) == sorted(pre + extra)
-    ok_rand = any(k == "RandomDisplayBPM()" and has(fs, [(f"{dv} == '*'", True)]) for k, fs in table.items())
-    part0 = [b for bs in loc.b.values() for b in bs if b.kind.startswith("unpack") and ast.unparse(b.value) == f"{dv}.partition(':')"]
-    pn = {b.index: n for n, bs in loc.b.items() for b in bs if b in part0}
-    lo_, hi_ = pn.get((0,), "?"), pn.get((2,), "?")
-    ok_range = any(k == f"RangeDisplayBPM(min=Decimal({lo_}), max=Decimal({hi_}))" and has(fs, [(f"{dv} == '*'", False), (f"':' in {dv}", True)]) for k, fs in table.items())
-    ok_stat = any(k == f"StaticDisplayBPM(value=Decimal({dv}))" and has(fs, [(f"{dv} == '*'", False), (f"':' in {dv}", False)]) for k, fs in table.items())
-    ctx.expect("R-TABLE", f, "'*' -> random", ok_rand, "", str(table), node=f.node)
-    ctx.expect("R-TABLE", f, "'a:b' -> range of the two numbers", ok_range, "", str(table), node=f.node)
-    part = [b for bs in loc.b.values() for b in bs if b.kind.startswith("unpack") and ast.unparse(b.value) == f"{dv}.partition(':')"]
-    idx = sorted((b.index, n) for n, bs in loc.b.items() for b in bs if b in part)
-    ctx.expect("R-TABLE", f, "the range bounds are the text before and after the ':'", [i for i, n in idx] == [(0,), (1,), (2,)], "", str(idx), node=f.node)
-    ctx.expect("R-TABLE", f, "one number -> static", ok_stat, "", str(table), node=f.node)
+    from .tables import function_decs, judge, sums_of, resolved
+    sums = sums_of(ctx, f)
+    xs = {e.target.id for s_ in sums for e in s_.effects if e.kind == "bind" and isinstance(e.target, ast.Name) and isinstance(e.value, ast.Call)
+          and callee_name_text(e.value).endswith("timing_source")}
+    require(len(xs) == 1, f"displaybpm: expected one local holding timing_source(...), found {sorted(xs)}")
+    x = next(iter(xs))
+    dv = f"{x}['DISPLAYBPM']"
+    # the list of BPM values: a local filled with <e>.value for e in BeatValues.from_str(x['BPMS'])
+    Bs = set()
+    for s_ in sums:
+        for i, e in enumerate(s_.effects):
+            if e.kind == "for" and ast.unparse(e.value) == f"BeatValues.from_str({x}['BPMS'])" and isinstance(e.target, ast.Name):
+                for e2 in s_.effects[i + 1:]:
+                    if e2.kind == "expr" and e.line in e2.loops and isinstance(e2.value, ast.Call) and isinstance(e2.value.func, ast.Attribute) and e2.value.func.attr == "append" \
+                            and isinstance(e2.value.func.value, ast.Name) and len(e2.value.args) == 1 and ast.unparse(e2.value.args[0]) == f"{e.target.id}.value":
+                        Bs.add(e2.value.func.value.id)
+    ctx.expect("R-TABLE", f, "the BPM values are those of the chosen source's BPMS", len(Bs) == 1, str(sorted(Bs)), f"no list of '<event>.value for event in BeatValues.from_str({x}[\'BPMS\'])' found", node=f.node)
+    if len(Bs) != 1:
+        return
+    B = next(iter(Bs))
+    IN, IGN, STAR, COL, ONE = f"'DISPLAYBPM' in {x}", "ignore_specified", f"{dv} == '*'", f"':' in {dv}", f"len({B}) == 1"
+
+    def spec(a):
+        if a[IN] and not a[IGN]:
+            if a[STAR]:
+                return "return RandomDisplayBPM()"
+            if a[COL]:
+                return f"return RangeDisplayBPM(min=Decimal({dv}.partition(':')[0]), max=Decimal({dv}.partition(':')[2]))"
+            return f"return StaticDisplayBPM(value=Decimal({dv}))"
+        return f"return StaticDisplayBPM(value={B}[0])" if a[ONE] else f"return RangeDisplayBPM(min=min({B}), max=max({B}))"
+
+    decs = function_decs(sums)
+    judge(ctx, "R-TABLE", f, "a usable DISPLAYBPM ('*' -> random, 'a:b' -> range of the two numbers, one number -> static) wins unless ignore_specified; otherwise from BPMS: one value -> static, else range(min, max)",
+          decs, [IN, IGN, STAR, COL, ONE], spec, dont_care=[f"{dv} is None"])
+    # the fallback: only a malformed number (InvalidOperation) leads from a specified DISPLAYBPM to the BPMS
     tries = [t for t in body_walk(f.node) if isinstance(t, ast.Try)]
-    okt = len(tries) == 1 and len(tries[0].handlers) == 1 and ast.unparse(tries[0].handlers[0].type) == "InvalidOperation" and not tries[0].finalbody \
-        and all(isinstance(s, ast.Pass) for s in tries[0].handlers[0].body)
-    ctx.expect("R-EXC", f, "only a malformed number (InvalidOperation) falls back to the BPMS", okt, "", "", node=f.node)
-    from ..pat import match as _m3
-    bl = [n for n, bs in loc.b.items() for b in bs if b.kind == "assign" and _m3("[$e.value for $e in BeatValues.from_str($x['BPMS'])]", b.value) is not None]
-    BL = bl[0] if len(bl) == 1 else "bpms"
-    ok_bpms = any(k.startswith(f"StaticDisplayBPM({BL}[0])") and (f"len({BL}) == 1", True) in fs for k, fs in table.items()) and \
-        any(k == f"RangeDisplayBPM(min=min({BL}), max=max({BL}))" and (f"len({BL}) == 1", False) in fs for k, fs in table.items())
-    ctx.expect("R-TABLE", f, "from BPMS: one value -> static, otherwise range(min, max)", ok_bpms, "", str(table), node=f.node)
-    bp = [b for b in loc.b.get(BL, []) if b.kind == "assign"]
-    mb = _m3("[$e.value for $e in BeatValues.from_str($x['BPMS'])]", bp[0].value) if len(bp) == 1 else None
-    okb = mb is not None and ast.unparse(mb["x"]) == x
-    ctx.expect("R-TABLE", f, "the BPM values are those of the chosen source's BPMS", okb, "", f"{src(bp[0].value) if bp else ''}", node=f.node)
-    ctx.expect("R-TABLE", f, "five outcomes", len(rets) == 5, "", f"{len(rets)} returns", node=f.node)
+    okt = len(tries) == 1 and len(tries[0].handlers) == 1 and tries[0].handlers[0].type is not None and ast.unparse(tries[0].handlers[0].type) == "InvalidOperation" and not tries[0].finalbody
+    ctx.expect("R-EXC", f, "only a malformed number (InvalidOperation) falls back to the BPMS", okt, "", f"{len(tries)} try statement(s): {[ast.unparse(h.type) if h.type is not None else 'bare' for t in tries for h in t.handlers]}", node=f.node)
+    if okt:
+        ex = sums_of(ctx, f, follow_exc=True, limit=60000)
+        bad = []
+        n = 0
+        for s_ in ex:
+            if any(e.kind == "except" for e in s_.effects) and s_.end != "raise":
+                n += 1
+                from .tables import terminal_text
+                t = terminal_text(s_)
+                if t not in (f"return StaticDisplayBPM(value={B}[0])", f"return RangeDisplayBPM(min=min({B}), max=max({B}))"):
+                    bad.append(t)
+        ctx.expect("R-EXC", f, "after a malformed number the result comes from the BPMS", not bad and n > 0, f"{n} handler paths", f"handler paths end in {sorted(set(bad))[:3]}", node=tries[0])
+
+
+def callee_name_text(c: ast.Call) -> str:
+    f = c.func
+    return f.id if isinstance(f, ast.Name) else (f.attr if isinstance(f, ast.Attribute) else "")
 
 
 def coalesce_coherence(ctx: Ctx) -> None:
